@@ -4,15 +4,52 @@
 // k-th check, for EVERY k.  The flag is only ever read inside IsCancelled, so
 // "Cancel() from another thread at any moment" is exactly "the k-th check is
 // the first to see it".
+// Two build variants: seq-fast (serial library) and par-model (MANIFOLD_PAR=1 on the replacement TBB runtime, two
+// modelled workers, default schedule, every gated loop sent down its parallel branch): in the parallel build every
+// chunk of a cancellable parallel loop is a check site of its own, so the set of injection points is a different one.
+// VBUILD: variants=seq-fast,par-model
 #include <sstream>
 
 #include "engine/runner.h"
 #include "lib/canon.h"
 #include "manifold/manifold.h"
 #include "verif_hooks.h"
+#ifdef VERIF_TBBRT
+#include "parallel.h"
+#include "engine/explore.h"
+#endif
 
 using namespace manifold;
 using namespace vf;
+
+// Runs f either directly (serial build) or as ONE execution of the modelled runtime under its default schedule.
+// Returns "" or a description of why the execution did not finish.
+template <typename F>
+static std::string inModel(F f) {
+#ifdef VERIF_TBBRT
+  static vx::Explorer ex;
+  vx::Config cfg;
+  cfg.workers = 2;
+  cfg.concurrency = 2;
+  cfg.inProcess = true;
+  cfg.timeout = 600;
+  vx::Exec e = ex.run({}, cfg, [&] {
+    kSeqThreshold = 4;
+    verif::par_threshold = 0;
+    verif::gate_override = 0;
+    f();
+    kSeqThreshold = 10000;
+    verif::par_threshold = -1;
+    verif::gate_override = -1;
+    return std::string("ok");
+  });
+  if (e.status != 1) return "the execution on the modelled runtime did not finish: status " + std::to_string(e.status) + " " + e.outcome;
+  return "";
+#else
+  f();
+  return "";
+#endif
+}
 
 // ---- the probe (hook H2)
 static long g_count = 0, g_fire = 0;
@@ -224,24 +261,47 @@ int main(int argc, char** argv) {
   auto P = programs(R.a.thorough());
   const int np = (int)P.size();
 
-  // calibration (deterministic, also needed for stand-alone replay)
-  std::vector<long> N(np);
-  std::vector<uint64_t> ref(np);
+  // calibration (deterministic): number of checks, fingerprint of the complete result, fingerprints of the extra
+  // handles.  Computed by the reference phase in a worker process (the modelled runtime keeps parked OS threads, which
+  // do not survive the fork into workers, so nothing runs on it in the parent) and handed back as emitted lines.
+  std::vector<long> N(np, 0);
+  std::vector<uint64_t> ref(np, 0);
   std::vector<uint64_t> offs(np + 1, 0);
   std::vector<char> refProgressBad(np, 0);
   std::vector<std::vector<uint64_t>> refExtra(np);
-  for (int i = 0; i < np; ++i) {
-    RunResult r = runOnce(P[i], 0);
-    refProgressBad[i] = !progressProblem(r.progress).empty();
-    for (auto& x : r.extra) refExtra[i].push_back(fingerprint(x, false));
-    N[i] = r.checks;
-    ref[i] = fingerprint(r.r, false);
-    offs[i + 1] = offs[i] + N[i];
-  }
+  auto calibrate = [&](int i) {
+    std::ostringstream o;
+    std::string why = inModel([&] {
+      RunResult r = runOnce(P[i], 0);
+      o << i << " " << r.checks << " " << fingerprint(r.r, false) << " " << (progressProblem(r.progress).empty() ? 0 : 1) << " " << r.extra.size();
+      for (auto& x : r.extra) o << " " << fingerprint(x, false);
+    });
+    return why.empty() ? o.str() : std::string();
+  };
+  auto absorb = [&](const std::string& line) {
+    std::istringstream in(line);
+    int i;
+    size_t ne;
+    int bad;
+    if (!(in >> i) || i < 0 || i >= np) return;
+    in >> N[i] >> ref[i] >> bad >> ne;
+    refProgressBad[i] = (char)bad;
+    refExtra[i].assign(ne, 0);
+    for (auto& x : refExtra[i]) in >> x;
+  };
+  if (!R.a.onlyCase.empty())
+    for (int i = 0; i < np; ++i) absorb(calibrate(i));  // stand-alone replay: no workers are forked, calibrate in place
 
-  R.phase("reference", np, 1, [&](uint64_t idx, Ctx& c) {
+  auto calLines = R.phase("reference", np, 1, [&](uint64_t idx, Ctx& c) {
     const Program& p = P[idx];
     c.describe(p.name + " (uncancelled)");
+    std::string cal = calibrate((int)idx);
+    if (cal.empty()) {
+      c.viol("ref:" + p.name + ":did-not-finish", p.name, "the uncancelled evaluation did not finish on the modelled runtime");
+      return;
+    }
+    c.emit(cal);
+    std::string modelWhy = inModel([&] {
     RunResult a = runOnce(p, 0), b = runOnce(p, 0);
     c.count("executions", 2);
     c.count("cancel_checks", a.checks);
@@ -264,7 +324,12 @@ int main(int argc, char** argv) {
     if (a.ctxCancelled) c.viol("ref:" + p.name + ":ctx", p.name, "context reports Cancelled without Cancel()");
     for (size_t i = 0; i < a.ops.size(); ++i)
       if (fingerprint(a.ops[i], true) != a.opFp[i]) c.viol("ref:" + p.name + ":operand", p.name, "operand changed by evaluation");
+    });
+    if (!modelWhy.empty()) c.viol("ref:" + p.name + ":did-not-finish", p.name, modelWhy);
   }, {"executions", "cancel_checks"});
+  if (R.a.onlyCase.empty())
+    for (auto& l : calLines) absorb(l);
+  for (int i = 0; i < np; ++i) offs[i + 1] = offs[i] + N[i];
 
   R.phase("inject", offs[np], 8, [&](uint64_t idx, Ctx& c) {
     int pi = 0;
@@ -274,6 +339,7 @@ int main(int argc, char** argv) {
     std::ostringstream d;
     d << p.name << " cancel at check " << k << "/" << N[pi];
     c.describe(d.str());
+    std::string modelWhy = inModel([&] {
     RunResult a = runOnce(p, k);
     c.count("executions");
     std::ostringstream at;
@@ -343,6 +409,8 @@ int main(int argc, char** argv) {
       }
     }
     if (k == 1 || k == N[pi]) c.sample(d.str() + (cancelled ? " -> Cancelled" : " -> complete"));
+    });
+    if (!modelWhy.empty()) c.viol("cancel:" + p.name + ":did-not-finish", d.str(), modelWhy);
   }, {"executions", "cancelled_outcomes", "complete_outcomes"});
   return R.finish();
 }
